@@ -138,6 +138,10 @@ pub struct Cfg {
     pub own: usize,
     pub peer: usize,
     pub seed: u64,
+    /// policy the nonces were made for (`None` = `policy` at reset); never changes during a case
+    pub init_policy: Option<SecurityPolicy>,
+    /// policy in force when `derive_keys` ran (`None` = `policy` at reset, if `keys`)
+    pub key_policy: Option<SecurityPolicy>,
 }
 
 impl Cfg {
@@ -171,12 +175,14 @@ impl Cfg {
             own: toks[7].parse().ok().filter(|i| *i < 5)?,
             peer: toks[8].parse().ok().filter(|i| *i < 5)?,
             seed: toks[9].parse().ok()?,
+            init_policy: None,
+            key_policy: None,
         })
     }
 
     pub fn nonces(&self) -> (Vec<u8>, Vec<u8>) {
         let mut r = Rng::new(self.seed ^ 0x5eed);
-        let n = nonce_len(self.policy);
+        let n = nonce_len(self.init_policy.unwrap_or(self.policy));
         (r.bytes(n), r.bytes(n))
     }
 
@@ -216,11 +222,12 @@ impl Cfg {
 
     /// (signing key, aes key, iv) the receiver uses to verify/decrypt (`remote_keys`)
     pub fn remote_keys(&self) -> Option<(Vec<u8>, Vec<u8>, Vec<u8>)> {
-        if !self.keys || self.policy == SecurityPolicy::None {
+        let kp = self.key_policy.unwrap_or(self.policy);
+        if !self.keys || kp == SecurityPolicy::None {
             return None;
         }
         let (mine, theirs) = self.nonces();
-        let (s, k, iv) = self.policy.make_secure_channel_keys(&mine, &theirs);
+        let (s, k, iv) = kp.make_secure_channel_keys(&mine, &theirs);
         Some((s, k.value().to_vec(), iv))
     }
 }
@@ -249,8 +256,19 @@ pub fn secured_chunk(
     req: u32,
     body: &[u8],
 ) -> Option<Vec<u8>> {
+    secured_chunk_f(sender, mt, MessageIsFinalType::Final, seq, req, body)
+}
+
+pub fn secured_chunk_f(
+    sender: &SecureChannel,
+    mt: MessageChunkType,
+    fin: MessageIsFinalType,
+    seq: u32,
+    req: u32,
+    body: &[u8],
+) -> Option<Vec<u8>> {
     let r = std::panic::catch_unwind(std::panic::AssertUnwindSafe(|| {
-        let chunk = MessageChunk::new(seq, req, mt, MessageIsFinalType::Final, sender, body).ok()?;
+        let chunk = MessageChunk::new(seq, req, mt, fin, sender, body).ok()?;
         let mut dst = vec![0u8; chunk.data.len() + 8192];
         let n = sender.apply_security(&chunk, &mut dst).ok()?;
         dst.truncate(n);
@@ -336,6 +354,44 @@ pub fn good_padding(sig_size: usize, enc_key_size: usize, ptbs: usize, body_len:
         v.push(((n - 2) >> 8) as u8);
         v
     }
+}
+
+/// MSG/CLO chunk assembled by hand with the receiver's verification keys: `tail` is everything after
+/// the 16 header bytes that gets signed (sequence header, body, padding — well formed or not); the
+/// mac is right unless `mac_ok` is false; encrypted when the mode says so (needs a block-aligned
+/// length, otherwise the bytes are left in clear).  None when the channel has no keys.
+pub fn craft_sym(cfg: &Cfg, typ: &[u8; 3], flag: u8, tail: &[u8], mac_ok: bool) -> Option<Vec<u8>> {
+    let (sk, ak, iv) = cfg.remote_keys()?;
+    let sha1 = matches!(cfg.policy, SecurityPolicy::Basic128Rsa15 | SecurityPolicy::Basic256);
+    let (md, sig) = if sha1 { (MessageDigest::sha1(), 20) } else { (MessageDigest::sha256(), 32) };
+    let mut v = typ.to_vec();
+    v.push(flag);
+    v.extend_from_slice(&[0u8; 4]);
+    v.extend_from_slice(&7u32.to_le_bytes());
+    v.extend_from_slice(&9u32.to_le_bytes());
+    v.extend_from_slice(tail);
+    let n = v.len() + sig;
+    set_size(&mut v, n);
+    let k = PKey::hmac(&sk).ok()?;
+    let mut s = openssl::sign::Signer::new(md, &k).ok()?;
+    s.update(&v).ok()?;
+    let mut mac = s.sign_to_vec().ok()?;
+    if !mac_ok {
+        mac[0] ^= 1;
+    }
+    v.extend_from_slice(&mac);
+    if cfg.mode == MessageSecurityMode::SignAndEncrypt && (v.len() - 16) % 16 == 0 {
+        let cipher = if ak.len() == 16 { openssl::symm::Cipher::aes_128_cbc() } else { openssl::symm::Cipher::aes_256_cbc() };
+        let mut c = openssl::symm::Crypter::new(cipher, openssl::symm::Mode::Encrypt, &ak, Some(&iv)).ok()?;
+        c.pad(false);
+        let mut out = vec![0u8; v.len() + 16];
+        let a = c.update(&v[16..], &mut out).ok()?;
+        let b = c.finalize(&mut out[a..]).ok()?;
+        out.truncate(a + b);
+        v.truncate(16);
+        v.extend_from_slice(&out);
+    }
+    Some(v)
 }
 
 // ------------------------------------------------------------------------------------------------
